@@ -31,7 +31,8 @@ TRUNCATING = ['*::Iterator::take', '*::Iterator::skip', '*::Iterator::step_by', 
 
 
 def has(og, pat):
-    return any(glob_match(pat, o) for o in og)
+    # a field path under the named origin also counts (getters spliced by the inliner make origins more precise)
+    return any(glob_match(pat, o) or (pat[-1] != '*' and glob_match(pat + '.*', o)) for o in og)
 
 
 def fields_read(f, adt_name):
